@@ -645,6 +645,67 @@ def _collect_cli_errors(run, cases, items, futs):
                                                        "; ".join(cq_diag(d) for d in ds))
         cases.append((9800 + i, txt, "cli-diags", {"files": pr.files(), "stderr": obs[0]["stderr"][-2500:], "parsed": ds}))
 
+# ------------------------------------------------------------------ single-file semantic diagnostics (every analysis after parsing)
+def semantic_diag_programs(rng):
+    """Single-module programs whose diagnostics come from the analyses that run after parsing (type checker, control flow, borrow
+    checker): several diagnostics per file, several candidates for each label (n live shared borrows of one place at a conflicting
+    write or &' borrow, several loans of different places, several missing returns ...), so that a map iterated without sorting
+    anywhere in those analyses shows as output that differs between runs (seed C14e: the binding a borrow diagnostic points at was
+    picked by iterating a map)."""
+    out = []
+    for n in (2, 3, 4, 5):
+        names = ["r%d" % i for i in range(n)]
+        L = ['import "std/io";', "fn main() {", "    let x: i32 = 1;", "    let y: i32 = 2;"]
+        L += ["    let %s: &i32 = &x;" % nm for nm in names]
+        L += ["    let q: &i32 = &y;"]
+        L += ["    x = 5;" if n % 2 == 0 else "    let m: &'i32 = &'x;"]
+        L += ["    y = 6;"]
+        order = names[:]; rng.shuffle(order)
+        L += ["    io::Println(%s);" % nm for nm in order] + ["    io::Println(q, x);", "}", ""]
+        out.append("\n".join(L))
+    out.append('import "std/io";\ntype P struct { .A: i32, .B: i32 };\nfn main() {\n    let p := { .A = 1, .B = 2 } as P;\n'
+               "    let a1: &i32 = &p.A;\n    let a2: &i32 = &p.A;\n    let b1: &'i32 = &'p.B;\n    let w: &P = &p;\n    p.A = 3;\n    p.B = 4;\n"
+               "    io::Println(a1, a2, b1, w.A);\n}\n")
+    out.append('import "std/io";\nfn f(a: i32) -> i32 { if a > 1 { return 1; } else if a > 0 { io::Println(a); } else { io::Println(0); } }\n'
+               "fn g(a: i32) -> i32 { match a { 1 => { return 1; } 2 => { io::Println(2); } _ => { io::Println(3); } } }\n"
+               "fn h(a: i32) -> bool { let u: i32 = true; let v: bool = 3; let w: str = u + v; return a; }\n"
+               "fn main() { let z: i32 = f(1) + g(2); const k: i32 = 1; k = 2; undefined1 = 3; io::Println(z, undefined2, h(1)); }\n")
+    return out
+
+def stage_semantic_diags(run, work, k):
+    progs = semantic_diag_programs(run.rng)
+    im = common.impl()
+    def runs(i):
+        d = work.sub("sem%d" % i)
+        open(os.path.join(d, "main.fer"), "w").write(progs[i])
+        obs = []
+        for j in range(k):
+            env = dict(os.environ, NO_COLOR="1", GOMAXPROCS=PROCS[j % len(PROCS)])
+            try:
+                p = subprocess.run([im.ferret, "-t", "main.fer"], cwd=d, stdout=subprocess.PIPE, stderr=subprocess.PIPE, timeout=60, env=env)
+                obs.append((p.returncode, common.strip_ansi(p.stdout.decode("utf8", "replace") + p.stderr.decode("utf8", "replace")), env["GOMAXPROCS"]))
+            except subprocess.TimeoutExpired:
+                obs.append((-9, "TIMEOUT", env["GOMAXPROCS"]))
+        return obs
+    futs = [POOL.submit(runs, i) for i in range(len(progs))]
+    def collect():
+        for i, fut in enumerate(futs):
+            obs = fut.result()
+            run.count("semantic_diag_programs"); run.count("cli_compiles", len(obs))
+            run.case(("sem-diag", progs[i]), True)
+            if obs[0][0] == 0:
+                continue      # (the family is meant to be rejected; an accepted member carries no diagnostics to compare)
+            for j in range(1, len(obs)):
+                if obs[j][:2] != obs[0][:2]:
+                    a, b = obs[0][1].splitlines(), obs[j][1].splitlines()
+                    first = next((n for n, (x, y) in enumerate(zip(a, b)) if x != y), min(len(a), len(b)))
+                    run.violation("cli-nondeterministic-semantic-diagnostics:%d" % i,
+                                  "the same file type-checked twice gives different diagnostics (run 0 GOMAXPROCS=%s vs run %d GOMAXPROCS=%s): first differing line %d: %r vs %r"
+                                  % (obs[0][2], j, obs[j][2], first, a[first] if first < len(a) else None, b[first] if first < len(b) else None),
+                                  {"files": {"main.fer": progs[i]}, "cmd": "ferret -t main.fer (repeat and diff)", "run_A": obs[0][1][-3000:], "run_B": obs[j][1][-3000:]})
+                    break
+    return collect
+
 # ------------------------------------------------------------------ open findings: deterministic replay + CLI sampling
 def finding_projects():
     plain = lambda main=False, pre=0: dict(nfn=0, nanon=0, nenum=0, nstruct=0, ntid=0, prefix=pre, nstr=0, imports=[], is_main=main, errline=False)
@@ -819,7 +880,8 @@ def main(run):
     clicases = []
     pending = [stage_cli(run, clicases, work, plan, k if not thorough else 30),
                stage_cli_errors(run, clicases, work, k if not thorough else 30),
-               stage_findings(run, work, 6 if not thorough else 45)]
+               stage_findings(run, work, 6 if not thorough else 45),
+               stage_semantic_diags(run, work, 14 if not thorough else 60)]
     lap("cli_submit")
     ok = run.proof("Props/C14.v"); lap("proof")
     if not ok:
